@@ -215,18 +215,16 @@ func (g *gen) ref(c cand, ctx string) {
 			ctx = "imported-other-file"
 		}
 	}
-	if c.b.nested != "" && !specificCtx[ctx] {
-		// the definition sits inside a top-level let / progn
-		ctx = "ref-to-nested-def"
-	}
-	if (c.b.name == "test" || c.b.name == "test-let") && (ctx == "call" || ctx == "") {
-		ctx = "call-of-head-special-cased"
-	}
 	g.e.sym(Occ{N: name, R: "ref", B: c.b.id, K: c.b.kind, C: ctx})
 }
 
 func (g *gen) bindOcc(b *bind) {
-	g.e.sym(Occ{N: b.name, R: "bind", B: b.id, K: b.kind, P: b.pkg})
+	x := b.expSpell
+	if b.nested != "" {
+		x = "nested-" + b.nested
+	}
+	g.e.sym(Occ{N: b.name, R: "bind", B: b.id, K: b.kind, P: b.pkg, X: x})
+	b.occAt, b.occFile = len(g.e.occ), g.fileIdx
 }
 
 // binderName chooses a name for a new local binder; a third of the time it
